@@ -269,4 +269,43 @@ func c10Deep(l *lean) {
 		rde = c10Src(fsR, fd.Body)
 	}
 	l.def("readDocumentFromEventBody", "String", fmt.Sprintf("%q", rde), rde)
+	// round 3: where the in-memory conflicted map is changed: the two branches of applyFrom's `if metadata.isConflicted()`
+	// (statement by statement, in order), and the bodies of the three functions that touch the map / answer the counter
+	var cb []string
+	if fd := funcDecl(writer, "applyFrom"); fd != nil {
+		found := false
+		for _, st := range fd.Body.List {
+			if is, ok := st.(*ast.IfStmt); ok && c10Src(fsW, is.Cond) == "metadata.isConflicted()" {
+				found = true
+				for _, b := range is.Body.List {
+					cb = append(cb, "then: "+c10Src(fsW, b))
+				}
+				if eb, ok := is.Else.(*ast.BlockStmt); ok {
+					for _, b := range eb.List {
+						cb = append(cb, "else: "+c10Src(fsW, b))
+					}
+				} else {
+					cb = append(cb, "else: <not a block>")
+				}
+			}
+		}
+		if !found {
+			cb = append(cb, "MISSING isConflicted branch")
+		}
+	} else {
+		cb = []string{"MISSING"}
+	}
+	for _, fn := range []string{"addCachedConflict", "removeCachedConflict", "Conflicted"} {
+		if fd := funcDecl(store, fn); fd != nil {
+			cb = append(cb, fn+": "+c10Src(fsS, fd.Body))
+		} else {
+			cb = append(cb, fn+": MISSING")
+		}
+	}
+	if fd := funcDecl(store, "ConflictedCount"); fd != nil && len(fd.Body.List) >= 2 {
+		cb = append(cb, "ConflictedCount: "+c10Src(fsS, fd.Body.List[0])+" ; "+fmt.Sprint(len(fd.Body.List))+" statements ; last: "+c10Src(fsS, fd.Body.List[len(fd.Body.List)-1]))
+	} else {
+		cb = append(cb, "ConflictedCount: MISSING")
+	}
+	l.def("cacheBranches", "List String", leanStrList(cb), cb)
 }
